@@ -276,7 +276,7 @@ def c11(tier, seed):
 def c18(tier, seed):
     t0 = time.time(); prop = "C18"
     variants = ["rel"] + (["dbg"] if tier == "thorough" else [])
-    build.build_many([("drv_seq", v) for v in variants])
+    build.build_many([("drv_seq", v) for v in ("rel", "dbg")])
     cfgs = []
     for d in (["-1", "0", "5", "10", "100"] if tier == "quick" else ["-1", "0", "1", "5", "10", "50", "100", "1000"]):
         for sc in ("pages", "segments", "all"):
@@ -298,11 +298,18 @@ def c18(tier, seed):
             if d == "10": exact.append(("arenas", dict(e, MIMALLOC_PURGE_DECOMMITS="0"))); exact.append(("arenas", dict(e, MIMALLOC_ARENA_PURGE_MULT="1")))
         exact.append(("trickle", {"MIMALLOC_PURGE_DELAY": d}))
         exact.append(("holes", {"MIMALLOC_PURGE_DELAY": d})); exact.append(("holes", {"MIMALLOC_PURGE_DELAY": d}))
+        exact.append(("abandoned", {"MIMALLOC_PURGE_DELAY": d}))
+        if d not in ("-1",): exact.append(("switch", {"MIMALLOC_PURGE_DELAY": d}))
+        if d == "10":
+            lazy = {"MIMALLOC_PURGE_DELAY": d, "MIMALLOC_EAGER_COMMIT": "0", "MIMALLOC_ARENA_EAGER_COMMIT": "0"}
+            for sc in ("holes", "holes", "arenas", "abandoned", "trickle"): exact.append((sc, lazy))
         if d not in ("-1", "0"): exact.append(("trickle", {"MIMALLOC_PURGE_DELAY": d, "MIMALLOC_PURGE_DECOMMITS": "0"}))
     cases = []; idx = 0
-    for v in variants:
+    # the debug build really decommits purged pages (partly committed segments): it runs the exact scenarios too (quick tier: for one delay)
+    for v in (variants if tier == "thorough" else ["rel", "dbg"]):
         for (sc, e) in exact:
-            for k in range(tier_n(tier, 4, 24)):
+            if v == "dbg" and tier == "quick" and e.get("MIMALLOC_PURGE_DELAY") != "10": continue
+            for k in range(tier_n(tier, 4, 24) if v == "rel" else tier_n(tier, 2, 12)):
                 s = case_seed(seed, prop, 100000 + idx); idx += 1
                 cases.append(_drv_case(prop, "C18-%s-%s-%s-%d" % (sc, envname(e), v, s), v, ["--profile", "purge", "--seed", s, "--scenario", sc], env=e, timeout=300, crash_refutes=["C01"],
                                        meta={"scenario": sc, "config": envname(e), "seed": s}))
@@ -318,7 +325,7 @@ def c18(tier, seed):
     cov = seq_cov(cases)
     cov["purge_measurements"] = [dict(scenario=c.meta["scenario"], config=c.meta["config"], **(c.result or {}).get("purge", {})) for c in cases[:40]]
     cov["virtual_clock_ms_advanced"] = core.sum_field(cases, "clock_ms")
-    ex = [c for c in cases if c.meta["scenario"] in ("arenas", "trickle", "holes") and c.result]
+    ex = [c for c in cases if c.meta["scenario"] in ("arenas", "trickle", "holes", "switch", "abandoned") and c.result]
     cov["exact_scenarios"] = {"cases": len(ex), "freed_ranges_checked": core.sum_field(ex, "purge_exact", "ranges_checked"), "bytes_checked": core.sum_field(ex, "purge_exact", "bytes_checked"),
                               "rounds": core.sum_field(ex, "purge_exact", "rounds"), "arena_counts_seen": sorted(set(int(c.result.get("purge_exact", {}).get("arenas", 0)) for c in ex))}
     return finish(prop, tier, seed, "exploration", v, cases, t0,
@@ -329,7 +336,10 @@ def c18(tier, seed):
                   "Exact scenarios: 'arenas' = huge blocks (a segment each) freed in random order with random virtual-time gaps into 1..7 arenas over 2..4 rounds, then only activity that frees no segment "
                   "and non-forced collects: every freed range must have 0 committed resident bytes after (4 + 2 x arenas) arena delays; 'trickle' = pages inside a live segment are freed and afterwards "
                   "new, larger pages are allocated in that segment at intervals shorter than the delay, nothing is freed: the freed pages must have 0 committed resident bytes once 3 delays have passed; 'holes' = 72 MiB of one-block pages (four size mixes), a subset freed by four "
-                  "patterns (random, every k-th kept, pages covering slice t mod 64 kept), after 3 delays one more page per segment is freed and every freed page of that segment must have 0 committed resident bytes; "
+                  "patterns (random, every k-th kept, pages covering slice t mod 64 kept), after 3 delays one more page per segment is freed and every freed page of that segment must have 0 committed resident bytes, then everything else is freed and after the arena delay every page of the "
+                  "segments that went back to their arena must be returned (partly committed segments: debug build, lazy commit); 'switch' = purge_delay is set to -1 at run time while purges are pending: no purge call "
+                  "may follow; 'abandoned' = a thread terminates with live one-block pages, this thread frees every other one, a non-forced collect releases the empty pages and after the delay further non-forced "
+                  "collects must have returned them; "
                   "non-trivial for these = at least one freed range judged",
                   lambda r, c: (r.get("purge", {}).get("peak", 0) >= (64 << 20)) or r.get("purge_exact", {}).get("ranges_checked", 0) > 0, cov,
                   SEQ_ASSUME + ["time is the wrapped clock_gettime; mimalloc reads no other clock for purging"])
